@@ -10,6 +10,9 @@ NOTE_COMMON = ("Trusted: go/types and go/ssa (x/tools v0.50.0) construction for 
                "code; value-level clauses named there as 'not decided' are not covered.")
 
 claimed = {
+ "C04": dict(category="other",
+   text="Decides structural necessary conditions of reorg cleanliness: the schema of each store is computed from the embedded migrations and every synced table cascades from block(num); the single sql.Open enables foreign keys; every Reorg binds the block deletion and the rewind of every tree-typed field to the same tx and block number on every committing path; Reorg is atomic; the in-memory frontier is rewritten from the database on every successful rebuild. Observational equivalence of all queries for all histories is value-level and not decided; SQLite's cascade semantics are trusted.",
+   ref="4 C04", technique="static analysis: DDL reader over embedded migrations, who-may-call, provenance and must-pass-through on SSA"),
  "C05": dict(category="other",
    text="Decides structural necessary conditions of exactly-once in-order delivery on every path of downloader and driver: a nil fetch result (treated by the caller as 'no events', cursor moves on) only under cancellation (one known finding, D3, is listed); block creation only after the header/log hash cross-check, fields from the same log; removed/foreign logs dropped; the driver never abandons a block except on success, cancellation or ErrInconsistentState (boolean-flag retry loops analysed path-sensitively); download restarts at lastProcessed+1 and after each reorg; the lower bound of every range fetch is the loop-carried cursor. Range arithmetic over chunk size, finality and tip movement is value-level and not decided, hence level 'other'.",
    ref="4 C05", technique="static analysis: SSA must-pass-through with boolean jump threading, value provenance, cursor (loop-carried Phi) discipline"),
@@ -19,6 +22,9 @@ claimed = {
  "C07": dict(category="other",
    text="Decides, on every path of the current source, the structural necessary conditions of all-or-nothing block processing: transaction pairing (commit / rollback / deferred rollback with a flag cleared only after a nil Commit) in every ProcessBlock and Reorg of the three stores; every SQL write in the transaction scope and its callee cone goes through the transaction; every in-memory frontier write is dominated by the registration of a rollback callback that invalidates the frontier; the computed set of post-construction field writes of the long-lived store objects is accounted for; ErrInconsistentState leaves ProcessBlock only with a halt; block row first, nothing after Commit. Level 'other': these are necessary conditions that hold for all faults and crash points because they do not depend on them; the value-level claim (state after retry equals the fault-free run) is not decided.",
    ref="4 C07", technique="static analysis: SSA transaction-discipline rules (must-pass-through, handle provenance over the callee cone, who-may-write)"),
+ "C16": dict(category="other",
+   text="Decides structural necessary conditions of the injected-GER index: the PP downloader fetches from its loop-carried cursor (the pinned tree fetched only the tip: fixed); watched topics are the ABI signatures of the events their handlers parse (oracle: the contract binding's ABI); handler and processor field maps; delete-by-GER only for removals, on the block's transaction; the lookup statement returns the minimum index >= X. FEP state polling and liveness are not decided.",
+   ref="4 C16", technique="static analysis: cursor (loop-carried Phi) discipline, ABI cross-check, provenance, SQL token checks"),
  "C14": dict(category="proof",
    text="Static proof, over all paths of the current source, of the fail-stop structure: every exported data query of both syncers (enumerated from the method sets, so later additions are included) is dominated by the !isHalted() edge and returns ErrInconsistentState on the halted edge; ProcessBlock tests the flag before opening a transaction and the driver stops on that error; halting sites latch the flag; the only clearing store is in UnhaltIfAffectedRows under rowsAffected>0, reached only from Reorg after a nil Commit with the DELETE's RowsAffected. Proof level is right because the property is a universally quantified statement about entry points and flag writes, which is exactly what dominance and who-may-write analyses decide.",
    ref="4 C14", technique="static analysis: SSA dominance / path-sensitive reachability, who-may-write enumeration, value provenance",
